@@ -54,7 +54,64 @@ def ctx_contract(res, gr, results):
     res.coverage["ctx_schedules_checked"] = n
 
 
+def cel_loops(res):
+    """CEL rules whose rendering loops over long collections of the receiver (membership in a 200-element field, a macro with a
+    nested membership test), one of them on the LAST validated field.  The generator model does not cover CEL conditions, so
+    the oracle is stated here: three validated fields = three cancellation points; a context that turns done at call k < 3 yields
+    ctx.Err(); one that turns done later (or never) changes nothing - in particular it never turns a valid value into a report."""
+    from corpora import with_ctx_flips
+    from synth import SLICE, T, basic, case, fld, scenario, set_int, set_str, struct
+    s, i64 = basic("string"), basic("int")
+    ints = T("[]int", "TSlice", "coll")
+    big = {"path": "Allowed", "vk": "coll", "isnil": False, "len": 200, "intelems": list(range(200))}
+    known = {"path": "Known", "vk": "coll", "isnil": False, "len": 200, "strelems": [("t%d" % k).encode().hex() for k in range(200)]}
+
+    def tags(*xs):
+        return {"path": "Tags", "vk": "coll", "isnil": False, "len": len(xs), "strelems": [x.hex() for x in xs]}
+    st = struct("Lookup", [fld("Name", ["//govalid:required"], s), fld("Allowed", [], ints), fld("Known", [], SLICE),
+                           fld("Tags", ["//govalid:cel=value.all(tag, tag in this.Known)"], SLICE), fld("ID", ["//govalid:cel=value in this.Allowed"], i64)],
+                with_ctx_flips([case([set_str("Name", b"n"), big, known, tags(b"t199", b"t150"), set_int("ID", 199)]),
+                                case([set_str("Name", b""), big, known, tags(b"zz"), set_int("ID", 500)])], 12))
+    corpus = {"scenarios": [scenario("c15cel", [st])]}
+
+    def oracle(gr, results):
+        n = 0
+        for m in gr.meta:
+            sc, st_ = genprop.find_struct(gr, m["key"])
+            base = None
+            for j, cs in enumerate(st_["cases"]):
+                o = gr.obs.get("%s/%d" % (m["key"], j))
+                if o is None:
+                    continue
+                n += 1
+                flip = cs.get("ctxflip", -1)
+                bad = None
+                if flip < 0:
+                    base = o
+                    if o["calls"] != "3":
+                        bad = "an undisturbed run polls the context %s times; three validated fields mean three cancellation points" % o["calls"]
+                    elif o["VTC"] != o["V"] or o["V"] != o["VT"] or o["VC"] != o["VTC"]:
+                        bad = "the four entry points disagree without any cancellation"
+                    elif j == 0 and o["V"] != "nil":
+                        bad = "a valid value is reported"
+                elif base is not None:
+                    code = "ctx:2" if cs.get("ctxerr") == "deadline" else "ctx:1"
+                    if flip < 3 and o["VTC"] != code:
+                        bad = "the context turned done at Err() call %d of 3 but the result is %s" % (flip, o["VTC"])
+                    elif flip >= 3 and o["VTC"] != base["V"]:
+                        bad = ("the context turned done only after the last cancellation point (from call %d on), yet the result %s differs from Validate() = %s"
+                               % (flip, o["VTC"], base["V"]))
+                if bad:
+                    res.violation({"kind": "spec-violation", "struct": m["key"], "case_index": j, "case": {k: v for k, v in cs.items() if k != "sets"}, "observed": o,
+                                   "source": genprop.struct_source(gr, m["key"]), "what": bad})
+                    return
+        res.coverage["cel_loop_schedules"] = n
+    genprop.run(res, "C15", None, corpus, tag="c15cel", entry="VTC", use_ctx=True, spec=False, exec_cmp=False, extra=oracle)
+
+
 def check(res):
+    cel_loops(res)
+    res.coverage["cel_loops"] = {k: res.coverage.get(k) for k in ("programs", "evaluations", "certificates", "cel_loop_schedules")}
     corpus = corpora.c15(res.seed, res.tier)
     genprop.run(res, "C15", PROPFILE, corpus, entry="VTC", use_ctx=True, spec=False,
                 extra=lambda gr, r: ctx_contract(res, gr, r))
